@@ -13,6 +13,8 @@ CONSTANTS OpKinds,     \* which operations are explored
           RetainPats,  \* decision sequences for retain
           ItemSeqs,    \* item sequences for extend / collect
           Hints,       \* size hints for extend / collect
+          RawArgs,     \* byte sequences (not necessarily UTF-8) for from_utf8_lossy
+          U16Args,     \* u16 sequences for from_utf16 / from_utf16_lossy
           FailMode,    \* 0: no injected failures, 1: each request singly, 2: also pairs
           PanicMode,   \* 0: iterators never panic, 1: every panic position
           Seeds,       \* set of seed paths (sequences of ops); <<>> is the empty pool
@@ -44,6 +46,8 @@ BaseOps(s) ==
   \cup {OpRec("with_capacity", "", 0, h, 0, n, 0, <<>>, <<>>, {}) : h \in IF K("with_capacity") THEN nd ELSE {}, n \in Caps \ {OVERFLOW}}
   \cup {OpRec("from_char", "", 0, h, 0, 0, 0, a, <<>>, {}) : h \in IF K("from_char") THEN nd ELSE {}, a \in CharArgs}
   \cup {OpRec("clone", "", 0, h, g, 0, 0, <<>>, <<>>, {}) : h \in IF K("clone") THEN nd ELSE {}, g \in lv}
+  \cup {OpRec("from_utf8_lossy", "", 0, h, 0, 0, 0, a, <<>>, {}) : h \in IF K("from_utf8_lossy") THEN nd ELSE {}, a \in RawArgs}
+  \cup {OpRec(o2, "", 0, h, 0, 0, 0, <<>>, u, {}) : h \in IF K("from_utf16") THEN nd ELSE {}, u \in U16Args, o2 \in {"from_utf16", "from_utf16_lossy"}}
   \cup {OpRec("collect", v, 0, h, 0, n, m, <<>>, x, {}) : h \in IF K("collect") THEN nd ELSE {}, v \in {"chars", "strs"},
             n \in Hints \ {OVERFLOW}, x \in ItemSeqs, m \in {0}} \* panic positions added below
   \cup {OpRec("display", "", t, h, 0, n, 0, <<>>, x, {}) : h \in IF K("display") THEN nd ELSE {}, x \in ItemSeqs, n \in 0..3, t \in {0, 1}}
@@ -79,7 +83,7 @@ FailSets(s, o) ==
            two == IF FailMode = 2 THEN {{j, k} : j \in 1..n0, k \in 1..(n0 + 1)} ELSE {} IN
        {{}} \cup one \cup two
 WithFailures(s, o) ==
-  UNION {IF (f = {} /\ ~IsSym(o.n)) \/ o.op = "display" THEN {[o EXCEPT !.f = f]} ELSE {[o EXCEPT !.f = f, !.t = t] : t \in {0, 1}} : f \in FailSets(s, o)}
+  UNION {IF (f = {} /\ ~IsSym(o.n)) \/ o.op \in {"display", "from_utf8_lossy", "from_utf16", "from_utf16_lossy"} THEN {[o EXCEPT !.f = f]} ELSE {[o EXCEPT !.f = f, !.t = t] : t \in {0, 1}} : f \in FailSets(s, o)}
 
 Ops(s) == UNION {UNION {WithFailures(s, o2) : o2 \in WithPanics(o)} : o \in {b \in BaseOps(s) : Sane(s, b)}}
 
